@@ -83,6 +83,9 @@ class RecMsg(httputil.HTTPMessageDelegate):
         self.end += "F"
         if self.h is None and self not in self.rec.order:
             self.rec.order.append(self)
+        if self.rec.respond == "raise":
+            self.rec.raised += 1
+            raise RuntimeError("application error in finish()")     # (after the F event has been recorded)
         if self.rec.respond == "async":
             self.rec.waiting.append(self)
         else:
@@ -121,6 +124,7 @@ class Recorder(httputil.HTTPServerConnectionDelegate):
         self.waiting = []        # finished messages whose response is outstanding (async)
         self.errors = []
         self.closed_conns = 0
+        self.raised = 0          # exceptions the application itself raised on purpose
 
     def start_request(self, server_conn, request_conn):
         return RecMsg(self, request_conn)
@@ -334,6 +338,9 @@ class ServerRun:
             out.append("unparsable")
         logs = sorted(set((n, l) for (n, l, m, exc) in self.log.records
                           if n != "tornado.access" and (getattr(logging, l) >= logging.WARNING or n == "tornado.application")))
+        if getattr(self.rec, "raised", 0):
+            # the application raised on purpose: tornado rightly reports that on tornado.application
+            logs = [x for x in logs if x != ("tornado.application", "ERROR")]
         errs = [type(c.get("exception")).__name__ for c in self.env.loop.uncaught]
         if self.rec is not None:
             errs += self.rec.errors
